@@ -5,6 +5,8 @@ verus! {
 //@include prelude.rs
 //@include assume_real.rs
 //@include dtype.rs
+//@include iter.rs
+//@include cutmodel.rs
 
 // exact (integer) instantiation of the generators: T = i64
 pub type T = i64;
@@ -128,6 +130,38 @@ impl Linspace {
         // exactly the progression a, a+step, ... lying strictly before b in the direction of the step: none missing, none beyond
         step > 0 ==> (r.len == 0 <==> a >= b) && (r.len > 0 ==> a + (r.len - 1) * step < b <= a + r.len * step),      // #C19 none_missing_none_beyond
 //@end
+
+
+// ---- tea-core trusted.rs `struct TrustIter<I>` (transcribed, A-EXTRACT; the wrapped iterator is the abstract It<A>).
+// The length given at construction is a promise (C09 obligation at every construction site, iter.rs `to_trust`); these contracts
+// say that the wrapper keeps the promise true while it is being consumed, from either end.
+pub struct TrustIter<A> { pub iter: It<A>, pub len: usize }
+impl<A> TrustIter<A> {
+    pub open spec fn honest(&self) -> bool { self.iter.forever().is_none() && self.len == self.iter.seq().len() }
+//@fn name=next crate=tea-core ctx="impl<I> Iterator for TrustIter<I>" as=trust_iter_next props=C09 arith=C09
+//@sig pub fn trust_iter_next(&mut self) -> (r: Option<A>)
+//@spec
+    requires old(self).honest(),
+    ensures
+        final(self).honest(),                                             // #C09 announced_length_follows_consumption
+        old(self).iter.seq().len() == 0 ==> r.is_none(),
+        old(self).iter.seq().len() > 0 ==> r == Some(old(self).iter.seq()[0]) && final(self).iter.seq() == old(self).iter.seq().skip(1),
+//@end
+//@fn name=next_back crate=tea-core ctx="impl<I> DoubleEndedIterator for TrustIter<I>" as=trust_iter_next_back props=C09 arith=C09
+//@sig pub fn trust_iter_next_back(&mut self) -> (r: Option<A>)
+//@spec
+    requires old(self).honest(),
+    ensures
+        final(self).honest(),                                             // #C09 announced_length_follows_consumption
+        old(self).iter.seq().len() == 0 ==> r.is_none(),
+        old(self).iter.seq().len() > 0 ==> r == Some(old(self).iter.seq().last()) && final(self).iter.seq() == old(self).iter.seq().drop_last(),
+//@end
+//@fn name=size_hint crate=tea-core ctx="impl<I> Iterator for TrustIter<I>" as=trust_iter_size_hint props=C09
+//@sig pub fn trust_iter_size_hint(&self) -> (r: (usize, Option<usize>))
+//@spec
+    ensures r == (self.len, Some(self.len)),                              // #C09 size_hint_is_the_stored_length
+//@end
+}
 
 } // verus!
 fn main() {}
